@@ -1,13 +1,14 @@
 (* Props/C12.v — PrefixSummedEliasFano is lossless and reports the exact sum.
    Pinned statements only; proofs are in Proofs/PSMain.v (on top of the Elias-Fano proofs
    EFRep / EFQueries / EFBuilder and the generic index iterator IterGeneric).
-   The DArray layer (Model/DArray.v) enters through one explicit premise, stated here in full
-   and discharged by its own proofs.
+   The premise about the DArray layer (Model/DArray.v) under which Proofs/PSMain.v is stated is a
+   theorem of that layer; it is discharged in Proofs/Integration.v, and the closed versions
+   pinned here come from Proofs/Integration2.v.
    Every query argument is an arbitrary N (in particular every usize). *)
 From Sucds Require Import Base.Res Spec.BitSpec Spec.SeqSpec Spec.DacSpec
   Model.BitVector Model.DArray Model.EliasFano Model.Psef
   Proofs.BVAbs Proofs.IndexSpecs Proofs.EFRep Proofs.EFBuilder Proofs.IterGeneric
-  Proofs.SALemmas Proofs.PSMain.
+  Proofs.SALemmas Proofs.PSMain Proofs.Integration2.
 Open Scope N_scope.
 
 (* from_slice(&[]) is rejected, in every configuration *)
@@ -23,9 +24,6 @@ Print Assumptions C12_empty.
    iterator contract (Proofs/IterGeneric.v: the values in order, then None forever, exact
    size hints) *)
 Theorem C12 :
-  (forall bits, lenN bits < 2 ^ 56 ->
-     exists d, (forall c, da_from_bits c bits = Ok d) /\ bits_of (da_bv d) = bits /\
-               da_s0 d = None /\ da_r9 d = None /\ (forall c, da_correct c d)) ->
   forall vals, vals <> [] -> sum_list vals + 1 < W ->
   lenN vals + 2 + (sum_list vals + 1) / 2 ^ low_len_of (sum_list vals + 1) (lenN vals) < 2 ^ 56 /\
   lenN vals * low_len_of (sum_list vals + 1) (lenN vals) < 2 ^ 56 ->
@@ -35,14 +33,11 @@ Theorem C12 :
     (forall c i, ps_access c p i = Ok (nth_opt vals i)) /\
     (forall c, iter_ok (nth_opt vals) (lenN vals) (ps_iter_next c p)
                        (BitVector.iter_size_hint c (lenN vals))).
-Proof. exact ps_correct. Qed.
+Proof. exact ps_correct_closed. Qed.
 Print Assumptions C12.
 
 (* the same for fewer than 2^50 values: the capacity premise follows *)
 Theorem C12_small :
-  (forall bits, lenN bits < 2 ^ 56 ->
-     exists d, (forall c, da_from_bits c bits = Ok d) /\ bits_of (da_bv d) = bits /\
-               da_s0 d = None /\ da_r9 d = None /\ (forall c, da_correct c d)) ->
   forall vals, vals <> [] -> sum_list vals + 1 < W -> lenN vals < 2 ^ 50 ->
   exists p, (forall c, ps_from_slice c vals = Ok (Some p)) /\
     ps_len p = lenN vals /\
@@ -50,7 +45,7 @@ Theorem C12_small :
     (forall c i, ps_access c p i = Ok (nth_opt vals i)) /\
     (forall c, iter_ok (nth_opt vals) (lenN vals) (ps_iter_next c p)
                        (BitVector.iter_size_hint c (lenN vals))).
-Proof. exact ps_correct_small. Qed.
+Proof. exact ps_correct_small_closed. Qed.
 Print Assumptions C12_small.
 
 Theorem C12_capacity_small : forall u m, u < W -> 1 <= m -> m < 2 ^ 50 ->
@@ -61,13 +56,10 @@ Print Assumptions C12_capacity_small.
 (* ---- the pieces: `ps_rep p vals` (Proofs/PSMain.v): the Elias-Fano value represents the prefix
    sums of vals with universe sum + 1 ---- *)
 Theorem C12_build :
-  (forall bits, lenN bits < 2 ^ 56 ->
-     exists d, (forall c, da_from_bits c bits = Ok d) /\ bits_of (da_bv d) = bits /\
-               da_s0 d = None /\ da_r9 d = None /\ (forall c, da_correct c d)) ->
   forall vals, vals <> [] -> sum_list vals + 1 < W ->
   ef_cap (sum_list vals + 1) (lenN vals) ->
   exists p, (forall c, ps_from_slice c vals = Ok (Some p)) /\ ps_rep p vals.
-Proof. exact ps_from_slice_ok. Qed.
+Proof. exact ps_from_slice_ok_closed. Qed.
 Print Assumptions C12_build.
 
 (* consecutive differences of the prefix sums are the values *)
